@@ -16,7 +16,7 @@ LEVEL = "model_checking"
 RULE = (
     "streams: every multiset of <= N timestamps from the grid x every warm-up/normal assignment; histories: every ordered set "
     "partition of the stream into batches (all arrival orders across clients x all cuts), each alone and interleaved with "
-    "batches of a second task; runner-supplied throughput streams separately. State = prefix of batches delivered to one real "
+    "batches of a second task; runner-supplied throughput streams (all positive, zero on alternate samples, all zero) separately. State = prefix of batches delivered to one real "
     "ThroughputCalculator; transition = one calculate() call. non-trivial = history with >= 2 batches or >= 2 samples; "
     "distinct = (stream, partition, variant)"
 )
@@ -90,6 +90,15 @@ def decode(n):
     return digits
 
 
+def pt_value(mode, i):
+    """runner-supplied throughput of sample i: mode 1 all positive, mode 2 zero on even samples (a runner reporting no progress), mode 3 all zero"""
+    if not mode:
+        return None
+    if mode == 3 or (mode == 2 and i % 2 == 0):
+        return 0.0
+    return 7.25 + i
+
+
 def run_history(times, types, batches, other_task, passthrough=False):
     """returns list of (call index, tuples for task A, tuples for task B)"""
     e = env()
@@ -98,7 +107,7 @@ def run_history(times, types, batches, other_task, passthrough=False):
     k = 0
     for bi, batch in enumerate(batches):
         samples = [
-            mk(e["task_a"], i, times[i], e["N"] if types[i] else e["W"], BASE**i, "docs", (7.25 + i) if passthrough else None) for i in batch
+            mk(e["task_a"], i, times[i], e["N"] if types[i] else e["W"], BASE**i, "docs", pt_value(passthrough, i)) for i in batch
         ]
         r = calc.calculate(samples)
         out.append((bi, r.get(e["task_a"], []), r.get(e["task_b"], []), set(r.keys())))
@@ -148,7 +157,7 @@ def oracle(times, types, batches, outs, other_task, passthrough):
             return ("phantom-values", f"other task values {tb} from a batch without its samples")
         if passthrough:
             want = sorted(
-                [(START + times[i], times[i], e["N"] if types[i] else e["W"], 7.25 + i, "docs/s") for i in cur_batch], key=lambda x: x[0]
+                [(START + times[i], times[i], e["N"] if types[i] else e["W"], pt_value(passthrough, i), "docs/s") for i in cur_batch], key=lambda x: x[0]
             )
             got = sorted(ta, key=lambda x: x[0])
             if [(w[0], w[2], w[3], w[4]) for w in want] != [(g[0], g[2], g[3], g[4]) for g in got] or any(
@@ -260,7 +269,8 @@ def _shard(arg):
         # runner-supplied throughput: types all-normal and one mixed assignment
         for types in ((1,) * n, tuple(i % 2 for i in range(n))):
             for p in range(nparts):
-                check_history(times, types, p, False, True, res)
+                for mode in (1, 2, 3):
+                    check_history(times, types, p, False, mode, res)
     return res
 
 
